@@ -469,6 +469,11 @@ class Firewall(Router, discriminator="firewall"):
             # Port is open on this Router so pass Frame up to session manager first
             self.session_manager.receive_frame(frame, from_network_interface)
         else:
+            # Layer 2 broadcasts (e.g. an ARP request for another address on the segment) are never forwarded by a
+            # router (see Router.process_frame), so no outbound interface is resolved (and no ARP request sent) for them
+            if frame.is_broadcast:
+                return
+
             # Attempt to get the outbound NIC from the ARP cache using the destination IP address
             outbound_nic = self.software_manager.arp.get_arp_cache_network_interface(frame.ip.dst_ip_address)
 
